@@ -5,8 +5,12 @@
 //   3. renderer (E -> source text, minimal parentheses by the precedence levels of grammar.y)
 //   4. reference evaluator (big-step CBV with closures, the oracle for `Expected`)
 //   5. generator (types `T`, contexts, productions)
-//   6. meaning-preserving rewrites
+//   5b. dependently typed constructions ("dependent mode": aliases under binders, type families at
+//       closed and bound indices, indexed predicates, groups whose type mentions their definitions,
+//       and deliberate near misses that have to be rejected)
+//   6. meaning-preserving rewrites (also inside nested definition groups)
 //   7. single-point ill-typing perturbations
+//   8. one type fault at a position of known expected type, with the byte span of the culprit
 // Nothing in this file calls into gram's sources.
 use crate::rng::Rng;
 use num_bigint::{BigInt, Sign};
@@ -60,6 +64,9 @@ pub struct Prog {
     pub expected: Expected,
     pub features: Vec<&'static str>,
     pub fully_annotated: bool,
+    // Some(kind): the program contains ONE deliberate near miss of that kind (two types that are
+    // not definitionally equal are required to be); the checker must reject it.
+    pub expect_reject: Option<&'static str>,
 }
 
 #[derive(Clone, Debug)]
@@ -70,6 +77,7 @@ pub struct GenCfg {
     pub allow_nested_groups: bool,
     pub allow_div: bool,
     pub big_literals: bool,
+    pub dependent: u8, // percent of programs generated in "dependent mode" (section 5b)
 }
 
 #[derive(Clone, Debug)]
@@ -358,12 +366,31 @@ struct Renderer<'a> {
     last_flag: bool,
     // whether the chain node rendered last added to `defect_sites`
     last_counted: bool,
+    // span tracking for one marked node: the node whose text with all parentheses directly around
+    // it is wanted (`mark_full`), and the node under its explicit parentheses (`mark_core`)
+    mark_full: *const E,
+    mark_core: *const E,
+    full: Option<(usize, usize)>,
+    core: Option<(usize, usize)>,
 }
+
+// Byte spans of a marked node in the rendered text: `full` = the node with every parenthesis
+// that directly surrounds it (written in the tree or added by the renderer), `core` = the node
+// inside all those parentheses.
+#[derive(Clone, Copy, Debug, PartialEq)]
+pub struct Spans { pub full: (usize, usize), pub core: (usize, usize) }
 
 pub fn render(e: &E, style: &Style, rng: &mut Rng) -> String { render_ex(e, style, rng).text }
 
-pub fn render_ex(e: &E, style: &Style, rng: &mut Rng) -> Rendered {
-    let mut r = Renderer { style, rng, out: String::new(), indent: 0, defect_sites: 0, comment_no: 0, last_right: (false, 0), last_flag: false, last_counted: false };
+pub fn render_ex(e: &E, style: &Style, rng: &mut Rng) -> Rendered { render_marked(e, style, rng, None).0 }
+
+// Rendering that also reports where the node at `mark` ended up in the text.
+pub fn render_marked(e: &E, style: &Style, rng: &mut Rng, mark: Option<&[usize]>) -> (Rendered, Option<Spans>) {
+    let (mf, mc): (*const E, *const E) = match mark {
+        Some(path) => { let n = at(e, path); (n as *const E, strip(n) as *const E) }
+        None => (std::ptr::null(), std::ptr::null()),
+    };
+    let mut r = Renderer { style, rng, out: String::new(), indent: 0, defect_sites: 0, comment_no: 0, last_right: (false, 0), last_flag: false, last_counted: false, mark_full: mf, mark_core: mc, full: None, core: None };
     if style.comments && r.rng.chance(1, 2) {
         r.out.push_str("# generated program\n");
     }
@@ -371,7 +398,8 @@ pub fn render_ex(e: &E, style: &Style, rng: &mut Rng) -> Rendered {
     if style.comments && r.rng.chance(1, 3) {
         r.out.push_str(" # end");
     }
-    Rendered { text: r.out, reassoc_defect_sites: r.defect_sites }
+    let spans = match (r.full, r.core) { (Some(full), Some(core)) => Some(Spans { full, core }), _ => None };
+    (Rendered { text: r.out, reassoc_defect_sites: r.defect_sites }, spans)
 }
 
 // Deterministic rendering without any decoration.
@@ -396,7 +424,8 @@ impl Renderer<'_> {
     // Returns true when the expression was written inside parentheses.
     fn go(&mut self, e: &E, max: u8, before_mul: bool) -> bool {
         let extra = self.style.redundant_parens > 0 && (self.rng.below(100) as u8) < self.style.redundant_parens;
-        if level(e) > max || extra {
+        let start = self.out.len();
+        let wrapped = if level(e) > max || extra {
             self.out.push('(');
             self.go_bare(e, false);
             self.out.push(')');
@@ -404,7 +433,9 @@ impl Renderer<'_> {
         } else {
             self.go_bare(e, before_mul);
             matches!(e, E::Paren(_))
-        }
+        };
+        if std::ptr::eq(e, self.mark_full) { self.full = Some((start, self.out.len())); }
+        wrapped
     }
 
     // A node of a left-associative chain: the left operand may continue the chain (level `lmax`),
@@ -436,6 +467,12 @@ impl Renderer<'_> {
     }
 
     fn go_bare(&mut self, e: &E, before_mul: bool) {
+        let start = self.out.len();
+        self.go_bare_inner(e, before_mul);
+        if std::ptr::eq(e, self.mark_core) { self.core = Some((start, self.out.len())); }
+    }
+
+    fn go_bare_inner(&mut self, e: &E, before_mul: bool) {
         match e {
             E::Lit(n) => self.out.push_str(&n.to_string()),
             E::True => self.out.push_str("true"),
@@ -523,9 +560,14 @@ impl Renderer<'_> {
                 // Render the body aside first: a line break before `-` is not a terminator, so a
                 // body starting with a unary minus must be separated by `;`.
                 let saved = std::mem::take(&mut self.out);
+                let (had_full, had_core) = (self.full.is_some(), self.core.is_some());
                 self.go(body, TERM, false);
                 let body_text = std::mem::replace(&mut self.out, saved);
                 self.terminator(body_text.starts_with('-'));
+                // spans recorded while the body was rendered aside are relative to it
+                let base = self.out.len();
+                if !had_full { if let Some(s) = self.full.as_mut() { s.0 += base; s.1 += base; } }
+                if !had_core { if let Some(s) = self.core.as_mut() { s.0 += base; s.1 += base; } }
                 self.out.push_str(&body_text);
             }
         }
@@ -841,6 +883,48 @@ pub fn ty_plain(t: &T) -> E {
     }
 }
 
+// A type family `int -> type` defined by comparisons of its parameter with literals, the way the
+// generator knows it: which argument values give which of the two types.
+//   shape 0: (n : int) => if n OP k then A else B
+//   shape 1: (n : int) => if k OP n then A else B
+//   shape 2: (n : int) => (lo : int = k; hi : int = k2; if n < hi then (if n >= lo then A else B) else B)
+//   shape 3: (n : int) => if n <= 0 then A else fam (n - 1)          (recursive, always A)
+//   shape 4: (n : int) => (lo = k; if n OP lo then A else B)
+#[derive(Clone, Debug, PartialEq)]
+pub struct Fam { shape: u8, op: u8, k: i64, k2: i64, then_t: T, else_t: T }
+
+fn cmp_holds(op: u8, a: i64, b: i64) -> bool {
+    match op { 4 => a < b, 5 => a <= b, 6 => a == b, 7 => a > b, _ => a >= b }
+}
+
+impl Fam {
+    // does the argument value select the type `then_t`?
+    fn holds(&self, n: i64) -> bool {
+        match self.shape {
+            1 => cmp_holds(self.op, self.k, n),
+            2 => self.k <= n && n < self.k2,
+            3 => true,
+            _ => cmp_holds(self.op, n, self.k),
+        }
+    }
+    fn denote(&self, n: i64) -> &T { if self.holds(n) { &self.then_t } else { &self.else_t } }
+    // An argument value that selects the wanted branch, preferably at the boundary (where both
+    // operands of a comparison are equal, or differ by one).
+    fn arg_for(&self, want_then: bool, rng: &mut Rng) -> Option<i64> {
+        if self.shape == 3 { return if want_then { Some(rng.range(0, 4)) } else { None }; }
+        let mut cands = vec![self.k, self.k - 1, self.k + 1];
+        if self.shape == 2 { cands.extend([self.k2, self.k2 - 1, self.k2 + 1]); }
+        let near: Vec<i64> = cands.iter().copied().filter(|n| self.holds(*n) == want_then).collect();
+        if !near.is_empty() && rng.chance(4, 5) { return Some(*rng.pick(&near)); }
+        let all: Vec<i64> = (-12..=12).filter(|n| self.holds(*n) == want_then).collect();
+        if all.is_empty() { None } else { Some(*rng.pick(&all)) }
+    }
+    // the branches an argument can select
+    fn branches(&self) -> Vec<(bool, &T)> {
+        if self.shape == 3 { vec![(true, &self.then_t)] } else { vec![(true, &self.then_t), (false, &self.else_t)] }
+    }
+}
+
 const NAME_POOL: [&str; 44] = [
     "x", "y", "z", "n", "m", "k", "f", "g", "h", "p", "q", "r", "s", "u", "v", "w", "i", "j", "acc", "tmp", "foo", "bar",
     "iff", "int2", "type_", "thenx", "elsey", "boolean", "truex", "false_", "ifx", "é", "λx", "名", "x1", "y2", "go", "fn1",
@@ -856,12 +940,20 @@ struct Bind {
     guarded: Option<i64>, // recursive function: the first argument must be a natural number <= this
     usable: bool,         // may be referenced from the position being generated
     forward: bool,        // referencing it from here is a forward reference of a non-function definition
+    fwd_ann: bool,        // a later member of the group being generated that annotations may already mention
+    family: Option<Fam>,  // this name is a type family `int -> type`
+    role: u8,             // 0 nothing special, ROLE_FIRST / ROLE_EQ / ROLE_REFL: helper definitions of section 5b
 }
+
+const ROLE_FIRST: u8 = 1; // first : int -> int -> int = a => b => a
+const ROLE_EQ: u8 = 2; // eq = (a : type) => (x : a) => (y : a) => (p : a -> type) -> p x -> p y
+const ROLE_REFL: u8 = 3; // refl : (a : type) -> (x : a) -> eq a x x
 
 impl Bind {
     fn plain(name: &str, ty: T) -> Bind {
-        Bind { name: name.to_owned(), ty, alias: None, guarded: None, usable: true, forward: false }
+        Bind { name: name.to_owned(), ty, alias: None, guarded: None, usable: true, forward: false, fwd_ann: false, family: None, role: 0 }
     }
+    fn opaque(name: &str) -> Bind { Bind { usable: false, ..Bind::plain(name, T::Int) } }
 }
 
 struct Gen<'r> {
@@ -874,11 +966,17 @@ struct Gen<'r> {
     no_let: bool,       // the next node must not be a group (body of a group)
     used_tyvars: BTreeSet<String>,
     obfuscate: bool,    // annotations may be obfuscated into definitionally equal types
+    // dependent mode (section 5b)
+    dep: bool,          // this program mixes in dependently typed constructions
+    in_ann: usize,      // > 0 while an annotation (never evaluated) is being generated
+    want_reject: bool,  // one of the constructions is to be a near miss
+    reject: Option<(&'static str, String)>, // the near miss made: (kind, a name that occurs only inside it)
+    dep_made: usize,    // number of dependent constructions made so far
 }
 
 // What a group is planned to contain, before any right-hand side is generated.
 #[derive(Clone)]
-enum Kind { Alias(T), Value, Func, Rec { calls: usize }, Poly }
+enum Kind { Alias(T), Value, Func, Rec { calls: usize }, Poly, Family(Fam), Helper }
 
 #[derive(Clone)]
 struct Item {
@@ -888,6 +986,10 @@ struct Item {
     cluster: Option<String>, // the partner of a mutually recursive pair
     fwd_user: Option<usize>, // index of the earliest non-function definition that calls it early
     literal: bool,           // a value definition whose right-hand side is forced to be a literal
+    fwd_ann: bool,           // annotations of earlier members of the group may mention it
+    role: u8,                // helper definitions (ROLE_*)
+    fwd_consts: Vec<usize>,  // a function whose body mentions these LATER non-value constants of the group
+    uses_fn: Option<usize>,  // a non-value definition that calls this earlier function of the group
 }
 
 impl Gen<'_> {
@@ -957,10 +1059,30 @@ impl Gen<'_> {
     fn ty_e(&mut self, t: &T) -> E {
         // an alias in scope for exactly this type
         if self.obfuscate {
-            let aliases: Vec<String> = self.scope.iter().filter(|b| b.usable && b.alias.as_ref() == Some(t)).map(|b| b.name.clone()).collect();
+            let in_ann = self.in_ann > 0;
+            let aliases: Vec<(String, bool)> = self.scope.iter().filter(|b| (b.usable || (b.fwd_ann && in_ann)) && b.alias.as_ref() == Some(t)).map(|b| (b.name.clone(), !b.usable)).collect();
             if !aliases.is_empty() && self.rng.chance(3, 5) {
                 self.feat("type-alias");
-                return var(self.rng.pick::<String>(&aliases[..]));
+                let (n, fwd) = self.rng.pick(&aliases[..]).clone();
+                if fwd { self.feat("dep-annotation-mentions-later-definition"); }
+                if matches!(t, T::TVar(_)) { self.feat("dep-alias-of-type-parameter"); }
+                if matches!(t, T::Type) { self.feat("dep-universe-alias"); }
+                return var(&n);
+            }
+            // a type family in scope, applied to an argument that selects this type
+            if self.dep {
+                let fams: Vec<(String, Fam, bool, bool)> = self.scope.iter()
+                    .filter(|b| b.usable || (b.fwd_ann && in_ann))
+                    .filter_map(|b| b.family.as_ref().map(|f| (b, f)))
+                    .flat_map(|(b, f)| f.branches().into_iter().filter(|(_, bt)| *bt == t).map(|(w, _)| (b.name.clone(), f.clone(), w, !b.usable)).collect::<Vec<_>>())
+                    .collect();
+                if !fams.is_empty() && self.rng.chance(1, 2) {
+                    let (n, f, want, fwd) = self.rng.pick(&fams[..]).clone();
+                    if let Some(w) = f.arg_for(want, self.rng) {
+                        if fwd { self.feat("dep-annotation-mentions-later-definition"); }
+                        return self.fam_app(&n, &f, w);
+                    }
+                }
             }
         }
         let base = match t {
@@ -1110,7 +1232,18 @@ impl Gen<'_> {
                 let ann = self.param_ann(a);
                 if a.is_fun() { self.feat("higher-order"); }
                 self.scope.push(Bind::plain(&x, (**a).clone()));
-                let body = if b.is_fun() && self.rng.chance(4, 5) { self.gen_lambda(b, budget.saturating_sub(1)) } else { self.expr(b, budget.saturating_sub(1)) };
+                // dependent mode, inside a polymorphic function: a local alias of a type parameter
+                let tvs = if self.dep && !b.is_fun() && !b.has_all() && **b != T::Type && self.dep_made < 5 && self.let_depth < 3 { self.tyvars_in_scope() } else { vec![] };
+                let aliased = if !tvs.is_empty() && self.rng.chance(1, 2) {
+                    let tv = self.rng.pick(&tvs).clone();
+                    let r = self.g_tyvar_alias(b, &tv, budget.saturating_sub(1).max(4));
+                    if r.is_some() { self.dep_made += 1; }
+                    r
+                } else { None };
+                let body = match aliased {
+                    Some(e) => e,
+                    None => if b.is_fun() && self.rng.chance(4, 5) { self.gen_lambda(b, budget.saturating_sub(1)) } else { self.expr(b, budget.saturating_sub(1)) },
+                };
                 self.scope.pop();
                 E::Lam { var: x, implicit: false, ann, body: Box::new(body) }
             }
@@ -1137,7 +1270,10 @@ impl Gen<'_> {
             self.feat("hole");
             return if self.rng.chance(1, 3) { Some(Box::new(E::Hole)) } else { None };
         }
-        Some(Box::new(self.ty_e(a)))
+        self.in_ann += 1;
+        let e = self.ty_e(a);
+        self.in_ann -= 1;
+        Some(Box::new(e))
     }
 
     fn expr(&mut self, goal: &T, budget: usize) -> E {
@@ -1146,6 +1282,9 @@ impl Gen<'_> {
         if !no_let && self.rng.chance(1, 30) {
             self.feat("explicit-parens");
             return paren(self.expr(goal, budget - 1));
+        }
+        if self.dep && budget >= 4 && self.dep_made < 5 && self.in_ann == 0 && self.rng.chance(1, 6) {
+            if let Some(e) = self.dep_gadget(goal, budget, !no_let && self.let_depth < 3) { return e; }
         }
         for _ in 0..4 {
             // weights: specific, if, call, var, applied lambda, group
@@ -1351,7 +1490,7 @@ impl Gen<'_> {
         while items.len() < n_defs {
             let r = self.rng.below(13);
             let left = n_defs - items.len();
-            let item = |kind: Kind, name: String, ty: T| Item { kind, name, ty, cluster: None, fwd_user: None, literal: false };
+            let item = |kind: Kind, name: String, ty: T| Item { kind, name, ty, cluster: None, fwd_user: None, literal: false, fwd_ann: false, role: 0, fwd_consts: vec![], uses_fn: None };
             match r {
                 0..=3 => {
                     // sometimes a function-typed value: what is left of an earlier function of
@@ -1413,11 +1552,11 @@ impl Gen<'_> {
                 if first_value.is_none() {
                     let n = name(self, &mut names);
                     let ty = self.ground_base();
-                    items.insert(0, Item { kind: Kind::Value, name: n, ty, cluster: None, fwd_user: None, literal: false });
+                    items.insert(0, Item { kind: Kind::Value, name: n, ty, cluster: None, fwd_user: None, literal: false, fwd_ann: false, role: 0, fwd_consts: vec![], uses_fn: None });
                 }
                 let n = name(self, &mut names);
                 let (kind, ty) = if self.rng.chance(1, 2) { (Kind::Func, self.func_type()) } else { (Kind::Rec { calls: 1 }, self.rec_type()) };
-                items.push(Item { kind, name: n, ty, cluster: None, fwd_user: None, literal: false });
+                items.push(Item { kind, name: n, ty, cluster: None, fwd_user: None, literal: false, fwd_ann: false, role: 0, fwd_consts: vec![], uses_fn: None });
             }
         }
         // a type alias for a type that the group is going to mention
@@ -1431,9 +1570,120 @@ impl Gen<'_> {
             pool.push(self.ground_base());
             let t = self.rng.pick(&pool).clone();
             let n = self.fresh_tyvar();
-            items.insert(0, Item { kind: Kind::Alias(t), name: n, ty: T::Type, cluster: None, fwd_user: None, literal: false });
+            items.insert(0, Item { kind: Kind::Alias(t), name: n, ty: T::Type, cluster: None, fwd_user: None, literal: false, fwd_ann: false, role: 0, fwd_consts: vec![], uses_fn: None });
         }
+        if self.dep { self.plan_dep_items(&mut items, &mut names); }
         items
+    }
+
+    // Dependent mode: more aliases (of type parameters, of the universe, chains, aliases and type
+    // families that come AFTER the annotations that mention them), a helper `first`, and functions
+    // that refer forward to later constants of the group.
+    fn plan_dep_items(&mut self, items: &mut Vec<Item>, names: &mut Vec<String>) {
+        let blank = |kind: Kind, name: String, ty: T| Item { kind, name, ty, cluster: None, fwd_user: None, literal: false, fwd_ann: false, role: 0, fwd_consts: vec![], uses_fn: None };
+        // (c) functions referring forward to later constants, used by still later definitions.
+        // gram's definition-order rule accepts that: a non-value definition may not reach a
+        // non-value definition at its own or a later position; the function is a value, and it is
+        // only called after the last constant it mentions.
+        if !self.cfg.allow_forward_refs && self.rng.chance(1, 2) {
+            let funcs: Vec<usize> = (0..items.len()).filter(|&i| matches!(items[i].kind, Kind::Func) && items[i].cluster.is_none()).collect();
+            if !funcs.is_empty() {
+                let i = *self.rng.pick(&funcs);
+                let mut consts: Vec<usize> = (i + 1..items.len()).filter(|&j| matches!(items[j].kind, Kind::Value) && items[j].ty == T::Int).collect();
+                // make sure there is a constant after the function
+                if consts.is_empty() {
+                    let n = loop { let n = self.fresh_name(); if !names.contains(&n) { names.push(n.clone()); break n; } };
+                    let at = i + 1 + self.rng.below(items.len() - i);
+                    Self::insert_item(items, at, blank(Kind::Value, n.clone(), T::Int));
+                    consts = vec![items.iter().position(|it| it.name == n).unwrap()];
+                }
+                while consts.len() > 2 { let k = self.rng.below(consts.len()); consts.remove(k); }
+                let last = *consts.iter().max().unwrap();
+                items[i].fwd_consts = consts;
+                // a later non-value definition that calls the function
+                if self.rng.chance(2, 3) {
+                    let res = items[i].ty.result().clone();
+                    let n = loop { let n = self.fresh_name(); if !names.contains(&n) { names.push(n.clone()); break n; } };
+                    let at = last + 1 + self.rng.below(items.len() - last);
+                    let mut it = blank(Kind::Value, n, if res.is_ground_base() { res } else { T::Int });
+                    it.uses_fn = Some(i);
+                    Self::insert_item(items, at, it);
+                }
+            }
+        }
+        // (d) first = a => b => a
+        if self.rng.chance(1, 5) && !self.scope.iter().any(|b| b.role == ROLE_FIRST) {
+            let n = if !self.in_scope("first") && !names.contains(&"first".to_owned()) { names.push("first".to_owned()); "first".to_owned() } else { loop { let n = self.fresh_name(); if !names.contains(&n) { names.push(n.clone()); break n; } } };
+            let mut it = blank(Kind::Helper, n, T::funs(&[T::Int, T::Int], T::Int));
+            it.role = ROLE_FIRST;
+            let at = self.rng.below(items.len() + 1);
+            Self::insert_item(items, at, it);
+        }
+        // (a) a type family over types that the group mentions
+        let mut pool: Vec<T> = vec![T::Int, T::Bool];
+        for it in items.iter() { if it.ty.is_ground_base() { pool.push(it.ty.clone()); } }
+        let tyvars: Vec<String> = self.scope.iter().filter(|b| b.usable && b.ty == T::Type && b.alias.is_none() && b.family.is_none() && self.used_tyvars.contains(&b.name)).map(|b| b.name.clone()).collect();
+        if self.rng.chance(2, 5) {
+            let a = self.rng.pick(&pool).clone();
+            let b = if !tyvars.is_empty() && self.rng.chance(1, 3) { T::TVar(self.rng.pick(&tyvars).clone()) } else if a == T::Int { T::Bool } else { T::Int };
+            let f = self.random_fam(a, b);
+            let n = self.fresh_tyvar();
+            let mut it = blank(Kind::Family(f), n, T::fun(T::Int, T::Type));
+            // a family is a function, hence a value: annotations before it may mention it
+            let at = if self.cfg.allow_forward_refs { 0 } else { self.rng.below(items.len() + 1) };
+            it.fwd_ann = at > 0;
+            Self::insert_item(items, at, it);
+        }
+        // (b) aliases
+        let n_alias = self.rng.below(3);
+        for _ in 0..n_alias {
+            let n = self.fresh_tyvar();
+            let r = self.rng.below(6);
+            let earlier: Vec<(usize, String, T)> = items.iter().enumerate().filter_map(|(i, it)| if let Kind::Alias(t) = &it.kind { Some((i, it.name.clone(), t.clone())) } else { None }).collect();
+            if r == 0 && !earlier.is_empty() {
+                // a chain: an alias of an earlier alias
+                let (i, target, t) = self.rng.pick(&earlier).clone();
+                let mut it = blank(Kind::Alias(t), n, T::Type);
+                it.cluster = Some(target);
+                let at = if self.cfg.allow_forward_refs { i + 1 } else { i + 1 + self.rng.below(items.len() - i) };
+                Self::insert_item(items, at, it);
+            } else if r == 1 && !tyvars.is_empty() {
+                // an alias of a type parameter in scope (a variable: not a value, so it comes first
+                // when forward references are around)
+                let t = T::TVar(self.rng.pick(&tyvars).clone());
+                let at = if self.cfg.allow_forward_refs { 0 } else { self.rng.below(items.len() + 1) };
+                Self::insert_item(items, at, blank(Kind::Alias(t), n, T::Type));
+            } else {
+                // an alias whose right-hand side is a value (`int`, `bool`, `type`, a function
+                // type), anywhere in the group: annotations before it may mention it
+                let t = if r == 2 { T::Type } else { self.rng.pick(&pool).clone() };
+                let mut it = blank(Kind::Alias(t), n, T::Type);
+                it.literal = true;
+                let at = self.rng.below(items.len() + 1);
+                it.fwd_ann = at > 0;
+                Self::insert_item(items, at, it);
+            }
+        }
+    }
+
+    // insert, keeping the indices stored in other items right
+    fn insert_item(items: &mut Vec<Item>, at: usize, it: Item) {
+        // never between the two functions of a mutually recursive pair (a non-value definition
+        // there could call the first, which calls the second, which is not there yet)
+        let mut at = at;
+        while at > 0 && at < items.len() && matches!(items[at].kind, Kind::Rec { .. }) && items[at - 1].cluster.as_deref() == Some(items[at].name.as_str()) { at += 1; }
+        for o in items.iter_mut() {
+            for c in o.fwd_consts.iter_mut() { if *c >= at { *c += 1; } }
+            if let Some(u) = o.uses_fn.as_mut() { if *u >= at { *u += 1; } }
+        }
+        items.insert(at, it);
+    }
+
+    fn random_fam(&mut self, then_t: T, else_t: T) -> Fam {
+        let shape = match self.rng.below(10) { 0..=4 => 0, 5 | 6 => 1, 7 => 2, 8 => 3, _ => 4 };
+        let k = self.rng.range(-2, 5);
+        let (then_t, else_t) = if shape == 3 { (then_t.clone(), then_t) } else if self.rng.chance(1, 2) { (then_t, else_t) } else { (else_t, then_t) };
+        Fam { shape, op: 4 + self.rng.below(5) as u8, k, k2: k + self.rng.range(1, 4), then_t, else_t }
     }
 
     fn gen_group(&mut self, goal: &T, budget: usize) -> E {
@@ -1441,12 +1691,13 @@ impl Gen<'_> {
         if self.let_depth > 1 { self.feat("nested-group"); }
         let base = self.scope.len();
         let mut items = self.plan_group(budget);
-        let has_alias = matches!(items[0].kind, Kind::Alias(_));
+        let has_alias = items.iter().any(|it| matches!(it.kind, Kind::Alias(_) | Kind::Family(_)));
         // all names of the group are in scope everywhere in it (no shadowing), but not usable yet
         for it in &items {
             let guarded = if let Kind::Rec { calls } = it.kind { Some(if calls > 1 { 3 } else { 4 }) } else { None };
             let alias = if let Kind::Alias(t) = &it.kind { Some(t.clone()) } else { None };
-            self.scope.push(Bind { name: it.name.clone(), ty: it.ty.clone(), alias, guarded, usable: false, forward: false });
+            let family = if let Kind::Family(f) = &it.kind { Some(f.clone()) } else { None };
+            self.scope.push(Bind { alias, guarded, usable: false, fwd_ann: it.fwd_ann, family, role: it.role, ..Bind::plain(&it.name, it.ty.clone()) });
         }
         // forward references: a non-function definition may call a later function definition, or
         // use a later literal definition
@@ -1471,6 +1722,7 @@ impl Gen<'_> {
         let n_items = items.len();
         let per = (budget * 3 / 4) / n_items.max(1);
         let mut defs: Vec<(String, Option<E>, E)> = vec![];
+        let mut deferred: Vec<(usize, usize)> = vec![];
         for i in 0..n_items {
             let it = items[i].clone();
             // a definition that is used early must not depend on anything from its user onwards
@@ -1488,8 +1740,31 @@ impl Gen<'_> {
             if omit_ann {
                 if self.rng.chance(1, 12) { self.feat("hole-in-unannotated-def"); } else { self.cfg.allow_holes = false; }
             }
+            // a function may mention later constants of the group (it is called only after them)
+            for &j in &it.fwd_consts { self.scope[base + j].usable = true; }
+            if !it.fwd_consts.is_empty() { self.feat("dep-function-mentions-later-constant"); }
             let rhs = match &it.kind {
+                Kind::Alias(t) if it.literal => { if it.fwd_ann { self.feat("dep-alias-after-its-uses"); } ty_plain(t) }
+                Kind::Alias(_) if it.cluster.is_some() => { self.feat("dep-alias-chain"); var(it.cluster.as_ref().unwrap()) }
+                Kind::Family(f) => self.fam_lambda(&it.name, &f.clone()),
+                Kind::Helper => {
+                    let (a, b) = (self.fresh_name(), self.fresh_name());
+                    let b = if a == b { format!("{b}2") } else { b };
+                    lam(&a, Some(E::TyInt), lam(&b, Some(E::TyInt), var(&a)))
+                }
+                Kind::Value if it.uses_fn.is_some() => {
+                    let f = items[it.uses_fn.unwrap()].name.clone();
+                    let res = items[it.uses_fn.unwrap()].ty.result().clone();
+                    self.feat("dep-later-definition-calls-forward-function");
+                    match self.force_call(&f, &res, per / 2) {
+                        Some(c) if res == it.ty => if it.ty == T::Int && self.rng.chance(1, 2) { bin(self.rng.below(3) as u8, c, self.expr(&T::Int, per / 3)) } else { c },
+                        Some(c) if res == T::Int => bin(4 + self.rng.below(5) as u8, c, self.expr(&T::Int, per / 3)),
+                        Some(c) if res == T::Bool => ite(c, self.expr(&it.ty, per / 3), self.expr(&it.ty, per / 3)),
+                        _ => self.expr(&it.ty, per),
+                    }
+                }
                 Kind::Alias(t) => {
+                    if matches!(t, T::TVar(_)) { self.feat("dep-alias-of-type-parameter"); }
                     let save = self.obfuscate;
                     self.obfuscate = save && self.rng.chance(1, 3);
                     let e = self.ty_e(&t.clone());
@@ -1505,19 +1780,49 @@ impl Gen<'_> {
                     },
                     None => self.expr(&it.ty, per),
                 },
+                Kind::Func if !it.fwd_consts.is_empty() => {
+                    let mut f = self.gen_lambda(&it.ty, per);
+                    // make sure the body mentions the constants
+                    let res = it.ty.result().clone();
+                    for &j in &it.fwd_consts {
+                        let c = items[j].name.clone();
+                        if mentions(&f, &c) { continue; }
+                        let mut depth = 0;
+                        { let mut q = &f; while let E::Lam { body, .. } = q { q = &**body; depth += 1; } }
+                        if depth != spine(&it.ty).0.len() { continue; }
+                        let mut cur = &mut f;
+                        while let E::Lam { body, .. } = cur { cur = &mut **body; }
+                        let old = std::mem::replace(cur, E::True);
+                        *cur = match res {
+                            T::Int => bin(self.rng.below(3) as u8, old, var(&c)),
+                            T::Bool => ite(bin(4 + self.rng.below(5) as u8, var(&c), lit(self.rng.range(0, 9))), old, if self.rng.chance(1, 2) { E::True } else { E::False }),
+                            _ => old,
+                        };
+                    }
+                    f
+                }
                 Kind::Func | Kind::Poly => self.gen_lambda(&it.ty, per),
                 Kind::Rec { calls } => self.gen_rec(&it, *calls, per),
             };
+            for &j in &it.fwd_consts { self.scope[base + j].usable = false; }
             for &j in &hidden { self.scope[base + j].usable = true; }
             self.cfg.allow_holes = saved_holes;
             let ann = if omit_ann {
                 self.feat("hole");
                 if self.rng.chance(1, 4) { Some(E::Hole) } else { None }
             } else {
-                Some(self.ty_e(&it.ty))
+                self.in_ann += 1;
+                let a = self.ty_e(&it.ty);
+                self.in_ann -= 1;
+                Some(a)
             };
             defs.push((it.name.clone(), ann, rhs));
-            self.scope[base + i].usable = true;
+            // a function that mentions later constants becomes usable after the last of them
+            match it.fwd_consts.iter().max() {
+                Some(&last) if last > i => deferred.push((i, last)),
+                _ => self.scope[base + i].usable = true,
+            }
+            for (f, last) in deferred.clone() { if last == i { self.scope[base + f].usable = true; } }
         }
         // body
         let rest = budget / 4 + 2;
@@ -1537,6 +1842,8 @@ impl Gen<'_> {
                 }
                 _ => { self.no_let = true; self.expr(goal, rest) }
             }
+        } else if self.dep && self.let_depth == 1 && (self.dep_made == 0 || self.rng.chance(1, 4)) && !goal.is_fun() && *goal != T::Type {
+            self.dep_gadget(goal, rest + 4, false).unwrap_or_else(|| lit(0))
         } else {
             self.no_let = true;
             // prefer a body that uses the group
@@ -1589,7 +1896,9 @@ impl Gen<'_> {
             if let Param::Val(t) = p {
                 let x = self.fresh_name();
                 // the parameter annotations of recursive functions are always written
+                self.in_ann += 1;
                 let ann = Some(Box::new(self.ty_e(t)));
+                self.in_ann -= 1;
                 self.scope.push(Bind::plain(&x, t.clone()));
                 params.push((x, ann));
             }
@@ -1654,13 +1963,728 @@ impl Gen<'_> {
         }
         e
     }
+
+    // -----------------------------------------------------------------------------------------
+    // 5b. Dependently typed constructions ("dependent mode")
+    // -----------------------------------------------------------------------------------------
+    // Each construction is an expression of the goal type whose value is that of a payload
+    // generated by `expr` (so the reference evaluator, for which every type is an opaque `Ty`,
+    // needs to know nothing about them), passed through identity coercions whose types are
+    // dependent: local type aliases under binders, type families applied to closed and to neutral
+    // indices, Leibniz-style predicates over convertible indices, groups whose type mentions
+    // their definitions. A construction can be made as a NEAR MISS: two types that have to be
+    // definitionally equal for the program to be well typed are not. There is at most one per
+    // program; it contains a binder called `nm_`, and the program is then expected to be rejected.
+
+    // k distinct names that are not in scope
+    fn fresh_names(&mut self, k: usize) -> Vec<String> {
+        let base = self.scope.len();
+        let mut out = vec![];
+        for _ in 0..k {
+            let n = self.fresh_name();
+            self.scope.push(Bind::opaque(&n));
+            out.push(n);
+        }
+        self.scope.truncate(base);
+        out
+    }
+
+    fn ann_or_hole(&mut self, e: E) -> Option<E> {
+        if self.cfg.allow_holes && self.rng.chance(1, 3) { self.feat("hole"); None } else { Some(e) }
+    }
+
+    fn fam_app(&mut self, name: &str, f: &Fam, w: i64) -> E {
+        self.feat("dep-family-applied-to-closed-index");
+        if f.shape != 3 && (w == f.k || (f.shape == 2 && w == f.k2)) { self.feat("dep-family-boundary-index"); }
+        let arg = self.closed_int(w);
+        app(var(name), arg)
+    }
+
+    // A closed expression with the integer value w.
+    fn closed_int(&mut self, w: i64) -> E {
+        match self.rng.below(12) {
+            0 => { let a = self.rng.range(-5, 9); bin(0, lit(a), lit(w - a)) }
+            1 => { let a = self.rng.range(-5, 9); bin(1, lit(w + a), lit(a)) }
+            2 if w == 0 => bin(2, lit(self.rng.range(1, 9)), lit(0)),
+            2 => bin(2, lit(w), lit(1)),
+            3 => {
+                let x = self.fresh_name();
+                let ann = self.ann_or_hole(E::TyInt);
+                paren(E::Let(vec![(x.clone(), ann, lit(w))], Box::new(var(&x))))
+            }
+            4 => { let c = self.closed_bool(true); ite(c, lit(w), lit(self.rng.range(0, 9))) }
+            _ => lit(w),
+        }
+    }
+
+    // The definition of a type family (see `Fam`); `name` is what it is called (for the recursive shape).
+    fn fam_lambda(&mut self, name: &str, f: &Fam) -> E {
+        let n = self.fresh_name();
+        let base = self.scope.len();
+        self.scope.push(Bind::opaque(&n));
+        let save = self.obfuscate;
+        self.obfuscate = false;
+        let (a, b) = (self.ty_e(&f.then_t), self.ty_e(&f.else_t));
+        self.obfuscate = save;
+        self.feat("dep-type-family");
+        let body = match f.shape {
+            1 => ite(bin(f.op, lit(f.k), var(&n)), a, b),
+            2 => {
+                self.feat("dep-family-with-local-group");
+                let lo = self.fresh_name();
+                self.scope.push(Bind::opaque(&lo));
+                let hi = self.fresh_name();
+                let (al, ah) = (self.ann_or_hole(E::TyInt), self.ann_or_hole(E::TyInt));
+                let inner = ite(bin(8, var(&n), var(&lo)), a, b.clone());
+                let inner = if self.rng.chance(1, 2) { paren(inner) } else { inner };
+                E::Let(vec![(lo, al, lit(f.k)), (hi.clone(), ah, lit(f.k2))], Box::new(ite(bin(4, var(&n), var(&hi)), inner, b)))
+            }
+            3 => {
+                self.feat("dep-recursive-type-family");
+                ite(bin(5, var(&n), lit(0)), a, app(var(name), bin(1, var(&n), lit(1))))
+            }
+            4 => {
+                self.feat("dep-family-with-local-group");
+                let lo = self.fresh_name();
+                let al = self.ann_or_hole(E::TyInt);
+                E::Let(vec![(lo.clone(), al, lit(f.k))], Box::new(ite(bin(f.op, var(&n), var(&lo)), a, b)))
+            }
+            _ => ite(bin(f.op, var(&n), lit(f.k)), a, b),
+        };
+        self.scope.truncate(base);
+        lam(&n, Some(E::TyInt), body)
+    }
+
+    fn other_ground(&mut self, t: &T) -> T { if *t == T::Int { T::Bool } else { T::Int } }
+
+    // type parameters of enclosing functions that have an inhabitant at hand
+    fn tyvars_in_scope(&self) -> Vec<String> {
+        self.scope.iter().filter(|b| b.usable && b.ty == T::Type && b.alias.is_none() && b.family.is_none() && self.used_tyvars.contains(&b.name)).map(|b| b.name.clone()).collect()
+    }
+
+    fn dep_gadget(&mut self, goal: &T, budget: usize, allow_let: bool) -> Option<E> {
+        if goal.has_all() || goal.is_fun() || *goal == T::Type { return None; }
+        let near = self.want_reject && self.reject.is_none() && self.rng.chance(2, 3);
+        let mut kinds: Vec<u8> = vec![1, 1, 1, 2, 2, 2, 3, 3, 3, 4];
+        if allow_let { kinds.extend([5, 5]); }
+        if self.cfg.allow_holes { kinds.push(6); }
+        let tvs = self.tyvars_in_scope();
+        if allow_let && !tvs.is_empty() { kinds.extend([8, 8]); }
+        let k = *self.rng.pick(&kinds);
+        self.dep_made += 1;
+        let before = self.reject.is_some();
+        // no holes inside a near miss: what is inferred through a hole is subject to gram's known
+        // hole-copy defect, and the verdict would not be the near miss's
+        let saved_holes = self.cfg.allow_holes;
+        if near { self.cfg.allow_holes = false; }
+        let e = match k {
+            1 => self.g_alias_coerce(goal, budget, near),
+            2 => self.g_family(goal, budget, near, allow_let),
+            3 => self.g_leibniz(goal, budget, near, allow_let),
+            4 => self.g_neutral_if(goal, budget, near, allow_let),
+            5 => self.g_eq_refl(goal, budget),
+            6 => self.g_hole_late(goal, budget, near),
+            _ => {
+                let a = self.rng.pick(&tvs).clone();
+                match self.g_tyvar_alias(goal, &a, budget) { Some(e) => e, None => self.g_alias_coerce(goal, budget, near) }
+            }
+        };
+        self.cfg.allow_holes = saved_holes;
+        if !before && self.reject.is_some() { self.feat("dep-near-miss"); }
+        Some(e)
+    }
+
+    // K1. A group of 2..4 definitions under a binder of a type `t`, one of them an alias of `t`
+    // that is not (necessarily) the first nor the last; the body's type mentions that alias; the
+    // group as a whole is applied or passed on.
+    //   ((t : type) => (y : t) => (a = int; b = t; (x : b) => x) y) A v
+    // Near miss: `y` has the type that the definition before the alias stands for.
+    fn g_alias_coerce(&mut self, goal: &T, budget: usize, near: bool) -> E {
+        self.feat("dep-alias-group-under-binder");
+        let sib = self.other_ground(goal);
+        let own = near || !matches!(goal, T::TVar(_)) || self.rng.chance(1, 3);
+        if near { self.reject = Some(("alias-of-outer-type-vs-sibling-definition", "nm_".to_owned())); }
+        let base0 = self.scope.len();
+        // when the payload itself is passed on inside `(h : t -> t) => h PAYLOAD`, h encloses it
+        let h = self.fresh_name();
+        if !own { self.scope.push(Bind::opaque(&h)); }
+        let v = self.expr(if near { &sib } else { goal }, budget / 2);
+        self.scope.truncate(base0);
+        let a_e = self.ty_e(goal);
+        let base = self.scope.len();
+        // binders of our own: t, maybe an integer in between, y
+        let (t, y, mid) = if own {
+            let t = self.fresh_tyvar();
+            self.scope.push(Bind::opaque(&t));
+            let mid = if self.rng.chance(1, 3) { let c = self.fresh_name(); self.scope.push(Bind::plain(&c, T::Int)); Some(c) } else { None };
+            let y = if near { "nm_".to_owned() } else { self.fresh_name() };
+            self.scope.push(Bind::opaque(&y));
+            (t, Some(y), mid)
+        } else {
+            let T::TVar(a) = goal else { unreachable!() };
+            self.feat("dep-alias-of-type-parameter");
+            (a.clone(), None, None)
+        };
+        // the group
+        // Near miss: the definition that the alias of `t` would be confused with if the copies of
+        // the group that end up in its type were lifted by too little: with j binders between
+        // the group and `t`, that is the definition j + 1 places before the alias.
+        let j = if mid.is_some() { 2 } else { 1 };
+        let n = if near { (j + 2).max(2 + self.rng.below(3)) } else { 2 + self.rng.below(3) };
+        let k = if near { j + 1 + self.rng.below(n - j - 1) } else if self.rng.chance(1, 6) { 0 } else { 1 + self.rng.below(n - 1) };
+        let sib_at = if near { k - 1 - j } else { usize::MAX };
+        if k > 0 && k + 1 < n { self.feat("dep-group-type-mentions-middle-definition"); }
+        if k + 1 == n { self.feat("dep-group-type-mentions-last-definition"); }
+        // kinds: 0 alias of t, 1 closed type, 2 integer constant, 3 universe alias
+        let kinds: Vec<u8> = (0..n).map(|i| if i == k { 0 } else if i == sib_at { 1 } else { [0, 1, 1, 1, 2, 2, 3][self.rng.below(7)] }).collect();
+        let names: Vec<String> = kinds.iter().map(|kd| { let x = if *kd == 2 { self.fresh_name() } else { self.fresh_tyvar() }; self.scope.push(Bind::opaque(&x)); x }).collect();
+        let mut defs = vec![];
+        let mut t_aliases: Vec<String> = vec![];
+        let mut univ: Option<String> = None;
+        for i in 0..n {
+            let ty_ann = |g: &mut Self, univ: &Option<String>| match univ { Some(u) if g.rng.chance(1, 2) => { g.feat("dep-universe-alias"); var(u) } _ => E::TyType };
+            let (ann, rhs) = match kinds[i] {
+                0 => {
+                    let rhs = if !t_aliases.is_empty() && i != k && self.rng.chance(1, 2) { self.feat("dep-alias-chain"); var(self.rng.pick::<String>(&t_aliases[..])) } else { var(&t) };
+                    t_aliases.push(names[i].clone());
+                    (ty_ann(self, &univ), rhs)
+                }
+                1 => {
+                    let s = if i == sib_at { sib.clone() } else { self.gen_type(1) };
+                    (ty_ann(self, &univ), ty_plain(&s))
+                }
+                2 => (E::TyInt, self.expr(&T::Int, 3)),
+                _ => { let a = ty_ann(self, &univ); univ = Some(names[i].clone()); (a, E::TyType) }
+            };
+            let ann = self.ann_or_hole(ann);
+            defs.push((names[i].clone(), ann, rhs));
+        }
+        let b = names[k].clone();
+        // the body: an identity function at the alias
+        let x = self.fresh_name();
+        self.scope.push(Bind::opaque(&x));
+        let body = if self.rng.chance(1, 4) {
+            self.feat("dep-alias-used-in-nested-group");
+            let w = self.fresh_name();
+            let b2 = self.rng.pick::<String>(&t_aliases[..]).clone();
+            lam(&x, Some(var(&b)), E::Let(vec![(w.clone(), Some(var(&b2)), var(&x))], Box::new(var(&w))))
+        } else {
+            lam(&x, Some(var(&b)), var(&x))
+        };
+        let group = E::Let(defs, Box::new(body));
+        let arg = match &y { Some(y) => var(y), None => v.clone() };
+        let applied = if self.rng.chance(1, 3) {
+            self.feat("dep-group-passed-as-argument");
+            let h = if own { self.fresh_name() } else { h };
+            app(lam(&h, Some(arrow(var(&t), var(&t))), app(var(&h), arg)), group)
+        } else {
+            app(group, arg)
+        };
+        self.scope.truncate(base);
+        let Some(y) = y else { return applied };
+        let y_ty = if near { ty_plain(&sib) } else { var(&t) };
+        let mut f = lam(&y, Some(y_ty), applied);
+        if let Some(c) = &mid { f = lam(c, Some(E::TyInt), f); }
+        f = lam(&t, Some(E::TyType), f);
+        let mut e = app(f, a_e);
+        if mid.is_some() { e = app(e, lit(self.rng.range(0, 9))); }
+        app(e, v)
+    }
+
+    // K2. A type family applied to closed indices (reducing), to let-bound indices and to bound
+    // variables (neutral), with a value ascribed to it.
+    fn g_family(&mut self, goal: &T, budget: usize, near: bool, allow_let: bool) -> E {
+        let other = self.other_ground(goal);
+        let avail: Vec<(String, Fam)> = self.scope.iter().filter(|b| b.usable).filter_map(|b| b.family.as_ref().map(|f| (b.name.clone(), f.clone()))).filter(|(_, f)| f.then_t == *goal || f.else_t == *goal).collect();
+        let (fname, fam, local) = if !avail.is_empty() && self.rng.chance(2, 3) {
+            let (n, f) = self.rng.pick(&avail[..]).clone();
+            (n, f, false)
+        } else {
+            let mut f = self.random_fam(goal.clone(), other);
+            if f.shape == 3 && !allow_let { f.shape = 0; f.else_t = self.other_ground(goal); }
+            (self.fresh_tyvar(), f, true)
+        };
+        // where only the forms with a bound variable are possible, a recursive family from the scope
+        // is mostly replaced by a fresh non-recursive one (see below)
+        let (fname, fam, local) = if fam.shape == 3 && !allow_let && !self.rng.chance(1, 5) {
+            let o = self.other_ground(goal);
+            let mut f = self.random_fam(goal.clone(), o.clone());
+            if f.shape == 3 { f.shape = 0; f.else_t = o; }
+            (self.fresh_tyvar(), f, true)
+        } else { (fname, fam, local) };
+        let want_then = if fam.then_t == fam.else_t { true } else { fam.then_t == *goal };
+        let near = near && fam.then_t != fam.else_t && fam.arg_for(!want_then, self.rng).is_some();
+        if near { self.reject = Some(("value-ascribed-to-the-other-branch-of-a-type-family", "nm_".to_owned())); }
+        let w = if near { fam.arg_for(!want_then, self.rng) } else { fam.arg_for(want_then, self.rng) }.unwrap_or(fam.k);
+        if fam.shape != 3 && (w == fam.k || (fam.shape == 2 && w == fam.k2)) { self.feat("dep-family-boundary-index"); }
+        let base = self.scope.len();
+        let named = !local || allow_let;
+        let mut form = if allow_let { self.rng.below(5) } else { 2 + self.rng.below(2) };
+        // A recursive family at a bound variable only now and then: every defect of the checker
+        // that makes such a program loop costs the harness an abort (minutes, until the memory
+        // cap is reached), and only a few aborts per run are attributed to their inputs.
+        if fam.shape == 3 && form >= 2 && allow_let && !self.rng.chance(1, 5) { form = [0, 1, 4][self.rng.below(3)]; }
+        // names of definitions (they enclose everything, the payload too) come first
+        if local && named { self.scope.push(Bind::opaque(&fname)); }
+        let xn = if near { "nm_".to_owned() } else { self.fresh_name() };
+        self.scope.push(Bind::opaque(&xn));
+        let kn = self.fresh_name();
+        self.scope.push(Bind::opaque(&kn));
+        let v = self.expr(goal, budget / 2);
+        let fam_def = if local && named { Some(self.fam_lambda(&fname, &fam)) } else { None };
+        // a reference to the family: its name, or a copy of its definition
+        let fref = |g: &mut Self| if named { var(&fname) } else { g.fam_lambda(&fname, &fam) };
+        let core = match form {
+            0 | 4 => {
+                // x : fam ARG = v; x            (also used under one more binder)
+                self.feat("dep-family-applied-to-closed-index");
+                let arg = self.closed_int(w);
+                let f = fref(self);
+                let body = if self.rng.chance(1, 2) { var(&xn) } else { self.feat("dep-definition-used-under-extra-binder"); let q = self.fresh_name(); app(lam(&q, Some(E::TyInt), var(&xn)), lit(self.rng.range(0, 9))) };
+                E::Let(vec![(xn.clone(), Some(app(f, arg)), v)], Box::new(body))
+            }
+            1 => {
+                // k : int = ARG; x : fam k = v; x
+                self.feat("dep-family-applied-to-defined-index");
+                let arg = if self.rng.chance(1, 2) { lit(w) } else { self.closed_int(w) };
+                let f = fref(self);
+                let ka = self.ann_or_hole(E::TyInt);
+                E::Let(vec![(kn.clone(), ka, arg), (xn.clone(), Some(app(f, var(&kn))), v)], Box::new(var(&xn)))
+            }
+            _ => {
+                // ((n : int) => (x : fam n) => x) ARG v, maybe through a second such function
+                self.feat("dep-family-applied-to-bound-variable");
+                if fam.shape == 3 { self.feat("dep-recursive-family-applied-to-bound-variable"); }
+                let arg = self.closed_int(w);
+                let n = self.fresh_name();
+                self.scope.push(Bind::opaque(&n));
+                let f1 = fref(self);
+                let inner = if form == 3 {
+                    self.feat("dep-family-neutral-through-application");
+                    let m = self.fresh_name();
+                    self.scope.push(Bind::opaque(&m));
+                    let f2 = fref(self);
+                    let z = self.fresh_name();
+                    app(app(lam(&m, Some(E::TyInt), lam(&z, Some(app(f2, var(&m))), var(&z))), var(&n)), var(&xn))
+                } else {
+                    var(&xn)
+                };
+                app(app(lam(&n, Some(E::TyInt), lam(&xn, Some(app(f1, var(&n))), inner)), arg), v)
+            }
+        };
+        let out = match fam_def {
+            Some(d) => {
+                let ann = { self.in_ann += 1; let a = self.ty_e(&T::fun(T::Int, T::Type)); self.in_ann -= 1; a };
+                let ann = if fam.shape == 3 { Some(ann) } else { self.ann_or_hole(ann) };
+                mk_let(vec![(fname, ann, d)], core)
+            }
+            None => core,
+        };
+        self.scope.truncate(base);
+        out
+    }
+
+    // Two closed integer expressions for the indices of a predicate: convertible but written
+    // differently, or (near miss) not convertible. Returns the value of the first.
+    fn conv_pair(&mut self, near: bool) -> (E, E, i64, i64) {
+        let (a, b, va, vb) = self.conv_pair_inner(near);
+        (a, b, va, vb.unwrap_or(va))
+    }
+
+    // (first, second, value of the first, value of the second when it differs)
+    fn conv_pair_inner(&mut self, near: bool) -> (E, E, i64, Option<i64>) {
+        let w = self.rng.range(0, 6);
+        let int_ann = |g: &mut Self| g.ann_or_hole(E::TyInt);
+        let first = |g: &mut Self| -> E {
+            let fs: Vec<String> = g.scope.iter().filter(|b| b.usable && b.role == ROLE_FIRST).map(|b| b.name.clone()).collect();
+            if !fs.is_empty() && g.rng.chance(2, 3) { return var(&fs[0]); }
+            let ab = g.fresh_names(2);
+            lam(&ab[0], Some(E::TyInt), lam(&ab[1], Some(E::TyInt), var(&ab[0])))
+        };
+        let let1 = |g: &mut Self, c: i64| -> E { let x = g.fresh_name(); let a = int_ann(g); paren(E::Let(vec![(x.clone(), a, lit(c))], Box::new(var(&x)))) };
+        let let2 = |g: &mut Self, c: i64, d: i64| -> E {
+            let xy = g.fresh_names(2);
+            let (a1, a2) = (int_ann(g), int_ann(g));
+            paren(E::Let(vec![(xy[0].clone(), a1, lit(c)), (xy[1].clone(), a2, lit(d))], Box::new(var(&xy[1]))))
+        };
+        if near {
+            match self.rng.below(5) {
+                0 => { self.feat("dep-index-same-function-different-arguments"); let u = self.rng.range(0, 9); let (f1, f2) = (first(self), first(self)); (app(app(f1, lit(w)), lit(u)), app(app(f2, lit(w + 1)), lit(u)), w, Some(w + 1)) }
+                1 => { let a = self.rng.range(0, 9); let w2 = w + if self.rng.chance(1, 2) { 1 } else { -1 }; (bin(0, lit(a), lit(w - a)), lit(w2), w, Some(w2)) }
+                2 | 3 => { self.feat("dep-index-groups-with-common-prefix"); let d = w + 1 + self.rng.range(0, 2); (let1(self, w), let2(self, w, d), w, Some(d)) }
+                _ => { let c = self.closed_bool(false); let u = w + 1 + self.rng.range(0, 3); (ite(c, lit(w), lit(u)), lit(w), u, Some(w)) }
+            }
+        } else {
+            match self.rng.below(8) {
+                0 | 1 => {
+                    self.feat("dep-index-same-function-different-arguments");
+                    let (u1, u2) = (self.rng.range(0, 4), self.rng.range(5, 9));
+                    let (f1, f2) = (first(self), first(self));
+                    (app(app(f1, lit(w)), lit(u1)), app(app(f2, lit(w)), lit(u2)), w, None)
+                }
+                2 => { let mut a = self.closed_int(w); if matches!(a, E::Lit(_)) { a = bin(0, lit(w), lit(0)); } (a, lit(w), w, None) }
+                3 => (let1(self, w), lit(w), w, None),
+                4 => { let c = self.rng.range(0, 9); (let2(self, c, w), let1(self, w), w, None) }
+                5 => { let c = self.closed_bool(true); (ite(c, lit(w), lit(self.rng.range(0, 9))), lit(w), w, None) }
+                6 => (bin(2, lit(self.rng.range(1, 99)), lit(0)), lit(0), 0, None),
+                _ => {
+                    // a recursive function that is not the last definition of its group
+                    self.feat("dep-index-group-with-recursive-function");
+                    let ns = self.fresh_names(4);
+                    let (f, g2, n1, n2) = (ns[0].clone(), ns[1].clone(), ns[2].clone(), ns[3].clone());
+                    let m = self.rng.range(0, 3);
+                    let fact = [1, 1, 2, 6][m as usize];
+                    let fty = || Some(arrow(E::TyInt, E::TyInt));
+                    let fdef = lam(&n1, Some(E::TyInt), ite(bin(5, var(&n1), lit(0)), lit(1), bin(2, var(&n1), app(var(&f), bin(1, var(&n1), lit(1))))));
+                    let gdef = lam(&n2, Some(E::TyInt), bin(0, var(&n2), lit(100)));
+                    (paren(E::Let(vec![(f.clone(), fty(), fdef), (g2, fty(), gdef)], Box::new(app(var(&f), lit(m))))), lit(fact), fact, None)
+                }
+            }
+        }
+    }
+
+    // A family (an expression of type `int -> type`) that gives the goal type at index w.
+    fn fam_at(&mut self, goal: &T, w: i64) -> E {
+        let avail: Vec<String> = self.scope.iter().filter(|b| b.usable && b.family.as_ref().map_or(false, |f| f.denote(w) == goal)).map(|b| b.name.clone()).collect();
+        if !avail.is_empty() && self.rng.chance(1, 2) { return var(self.rng.pick::<String>(&avail[..])); }
+        if self.rng.chance(1, 2) {
+            let n = self.fresh_name();
+            let a = self.ty_e(goal);
+            return lam(&n, Some(E::TyInt), a);
+        }
+        let other = self.other_ground(goal);
+        let op = [5u8, 6, 8][self.rng.below(3)];
+        let f = Fam { shape: if self.rng.chance(1, 4) { 4 } else { 0 }, op, k: w, k2: w + 1, then_t: goal.clone(), else_t: other };
+        self.feat("dep-family-boundary-index");
+        self.fam_lambda("", &f)
+    }
+
+    // A family that gives type `ta` at index `va` and `tb` at index `vb` (va != vb).
+    fn fam_at2(&mut self, ta: &T, va: i64, tb: &T, vb: i64) -> E {
+        let f = if self.rng.chance(1, 2) {
+            Fam { shape: 0, op: 6, k: vb, k2: vb + 1, then_t: tb.clone(), else_t: ta.clone() }
+        } else if va < vb {
+            Fam { shape: 0, op: if self.rng.chance(1, 2) { 8 } else { 7 }, k: vb, k2: vb + 1, then_t: tb.clone(), else_t: ta.clone() }
+        } else {
+            Fam { shape: 0, op: if self.rng.chance(1, 2) { 5 } else { 4 }, k: vb, k2: vb + 1, then_t: tb.clone(), else_t: ta.clone() }
+        };
+        // with > and < the boundary itself is on the other side
+        let f = if f.denote(va) == ta && f.denote(vb) == tb { f } else { Fam { op: 6, ..f } };
+        self.fam_lambda("", &f)
+    }
+
+    // What a value of the goal type is used for: a near miss whose coercion would let a value of
+    // another type through is followed by a use that gets stuck on such a value.
+    fn consume(&mut self, goal: &T, e: E) -> E {
+        if self.rng.chance(1, 4) { return e; }
+        match goal {
+            T::Int => if self.rng.chance(1, 2) { bin(0, e, lit(0)) } else { bin(2, e, lit(1)) },
+            T::Bool => ite(e, E::True, E::False),
+            _ => e,
+        }
+    }
+
+    // K3. Leibniz-style coercion between a predicate at two indices:
+    //   ((p : int -> type) => (e : p E1) => ((c : p E2) => c) e) FAM v
+    // closed indices (convertible by computation) or indices built from bound variables.
+    fn g_leibniz(&mut self, goal: &T, budget: usize, near: bool, allow_let: bool) -> E {
+        self.feat("dep-indexed-predicate");
+        if near { self.reject = Some(("predicate-at-non-convertible-indices", "nm_".to_owned())); }
+        let base = self.scope.len();
+        let neutral = self.rng.chance(1, 3);
+        let form = if allow_let && !neutral { self.rng.below(3) } else { 0 };
+        // the name of the coercion, when it is a definition, encloses the arguments too
+        let name = self.fresh_name();
+        if form != 0 { self.scope.push(Bind::opaque(&name)); }
+        let args_base = self.scope.len();
+        // near miss: a value of ANOTHER type goes in, and would come out at the goal type
+        let pay = if near { self.other_ground(goal) } else { goal.clone() };
+        let v = self.expr(&pay, budget / 2);
+        let pty = || arrow(E::TyInt, E::TyType);
+        let p = self.fresh_name();
+        self.scope.push(Bind::opaque(&p));
+        let e = if near { "nm_".to_owned() } else { self.fresh_name() };
+        self.scope.push(Bind::opaque(&e));
+        let out = if neutral {
+            // indices over bound variables
+            self.feat("dep-index-over-bound-variables");
+            let i = self.fresh_name();
+            self.scope.push(Bind::opaque(&i));
+            let j = self.fresh_name();
+            self.scope.push(Bind::opaque(&j));
+            let w = self.rng.range(0, 4);
+            let op = if near { [0u8, 2][self.rng.below(2)] } else { self.rng.below(3) as u8 };
+            let respell = !near && op == 0 && self.rng.chance(1, 2);
+            let w2 = w + 1; // the second variable's value (near miss only)
+            let (i1, i2, val, val2) = if respell {
+                (bin(0, var(&i), paren(bin(0, lit(1), lit(1)))), bin(0, var(&i), lit(2)), w + 2, w + 2)
+            } else {
+                let f = |x: i64| match op { 0 => x + x, 1 => 0, _ => x * x };
+                (bin(op, var(&i), var(&i)), if near { bin(op, var(&j), var(&j)) } else { bin(op, var(&i), var(&i)) }, f(w), f(w2))
+            };
+            let with_g = self.rng.chance(1, 2);
+            let c = self.fresh_name();
+            let coerce = if with_g { app(var(&c), var(&e)) } else { app(lam(&c, Some(app(var(&p), i2.clone())), var(&c)), var(&e)) };
+            let mut f = if with_g { lam(&c, Some(arrow(app(var(&p), i2.clone()), app(var(&p), i2))), coerce) } else { coerce };
+            f = lam(&e, Some(app(var(&p), i1)), f);
+            if near { f = lam(&j, Some(E::TyInt), f); }
+            f = lam(&i, Some(E::TyInt), f);
+            f = lam(&p, Some(pty()), f);
+            self.scope.truncate(args_base);
+            let fam = if near { self.fam_at2(&pay, val, goal, val2) } else { self.fam_at(goal, val) };
+            let mut r = app(app(f, fam), lit(w));
+            if near { r = app(r, lit(w2)); }
+            r = app(r, v);
+            if with_g {
+                let gt = T::fun(goal.clone(), goal.clone());
+                let g = self.gen_lambda(&gt, budget / 3);
+                r = app(r, g);
+            }
+            r
+        } else {
+            let (e1, e2, val, val2) = self.conv_pair(near);
+            let c = self.fresh_name();
+            self.scope.truncate(args_base);
+            let fam = if near && val != val2 { self.fam_at2(&pay, val, goal, val2) } else { self.fam_at(goal, val) };
+            if form == 0 {
+                let f = lam(&p, Some(pty()), lam(&e, Some(app(var(&p), e1)), app(lam(&c, Some(app(var(&p), e2)), var(&c)), var(&e))));
+                app(app(f, fam), v)
+            } else {
+                // coerce : ((p : int -> type) -> p E1 -> p E2) = (p : int -> type) => (e : p E1) => e; coerce FAM v
+                self.feat("dep-annotated-coercion-definition");
+                let ty = E::Pi { var: Some(p.clone()), implicit: false, dom: Box::new(pty()), cod: Box::new(arrow(app(var(&p), e1.clone()), app(var(&p), e2))) };
+                // p is bound inside the annotation only; the lambda (a sibling) uses the same names
+                let body = if form == 2 && self.cfg.allow_holes { self.feat("hole"); lam(&p, None, lam(&e, None, var(&e))) } else { lam(&p, Some(pty()), lam(&e, Some(app(var(&p), e1)), var(&e))) };
+                mk_let(vec![(name.clone(), Some(ty), body)], app(app(var(&name), fam), v))
+            }
+        };
+        self.scope.truncate(base);
+        if near { self.consume(goal, out) } else { out }
+    }
+
+    // K4. Two type-level functions of a boolean, compared at a bound variable:
+    //   ((b : bool) => (x : T1 b) => ((y : T2 b) => y) x) true v
+    // T1 = c => if c then A else B, T2 the same with the other branch written differently
+    // (near miss: a different type there).
+    fn g_neutral_if(&mut self, goal: &T, budget: usize, near: bool, allow_let: bool) -> E {
+        self.feat("dep-type-level-if-on-bound-variable");
+        let other = self.other_ground(goal);
+        if near { self.reject = Some(("type-level-if-on-bound-variable-with-different-branch", "nm_".to_owned())); }
+        let base = self.scope.len();
+        // the names of the two functions, when they are definitions, enclose the payload too
+        let named = allow_let && self.rng.chance(1, 2);
+        let (n1, n2) = (self.fresh_tyvar(), self.fresh_tyvar());
+        if named { self.scope.push(Bind::opaque(&n1)); self.scope.push(Bind::opaque(&n2)); }
+        // two kinds of near miss: the branches that the argument does NOT select differ (harmless
+        // at run time), or the selected ones do: then a value of another type goes in and would
+        // come out at the goal type
+        let live_differs = near && self.rng.chance(2, 3);
+        let pay = if live_differs { other.clone() } else { goal.clone() };
+        let v = self.expr(&pay, budget / 2);
+        let arg_base = self.scope.len();
+        // the selected branch is the then-branch and the argument is true (else: else-branch, false)
+        let sel = if live_differs { self.rng.chance(1, 3) } else { self.rng.chance(1, 2) };
+        let b = self.fresh_name();
+        self.scope.push(Bind::opaque(&b));
+        let x = if near { "nm_".to_owned() } else { self.fresh_name() };
+        self.scope.push(Bind::opaque(&x));
+        let y = self.fresh_name();
+        self.scope.push(Bind::opaque(&y));
+        let mk = |g: &mut Self, live: E, dead: E| -> E {
+            let c = g.fresh_name();
+            lam(&c, Some(E::TyBool), if sel { ite(var(&c), live, dead) } else { ite(var(&c), dead, live) })
+        };
+        let save = self.obfuscate;
+        self.obfuscate = false;
+        // the unselected branch: the other type; when the selected ones differ, the goal type (a
+        // checker that looked at the unselected branches only would let the value through AT the goal type)
+        let dead = if live_differs { goal.clone() } else { other.clone() };
+        let (a1, a2, o1) = (self.ty_e(&pay), self.ty_e(goal), ty_plain(&dead));
+        self.obfuscate = save;
+        let o2 = if live_differs {
+            ty_plain(&dead)
+        } else if near {
+            if self.rng.chance(1, 2) { a1.clone() } else { arrow(ty_plain(&other), ty_plain(&other)) }
+        } else {
+            match self.rng.below(3) {
+                0 => { let c = self.closed_bool(true); ite(c, ty_plain(&other), a1.clone()) }
+                1 => { let q = self.fresh_tyvar(); app(lam(&q, Some(E::TyType), var(&q)), ty_plain(&other)) }
+                _ => ty_plain(&other),
+            }
+        };
+        let (t1, t2) = (mk(self, a1, o1), mk(self, a2, o2));
+        let (r1, r2) = if named { (var(&n1), var(&n2)) } else { (t1.clone(), t2.clone()) };
+        let f = lam(&b, Some(E::TyBool), lam(&x, Some(app(r1, var(&b))), app(lam(&y, Some(app(r2, var(&b))), var(&y)), var(&x))));
+        self.scope.truncate(arg_base);
+        let arg = self.closed_bool(sel);
+        let core = app(app(f, arg), v);
+        let out = if named {
+            let fty = || arrow(E::TyBool, E::TyType);
+            let (an1, an2) = (self.ann_or_hole(fty()), self.ann_or_hole(fty()));
+            mk_let(vec![(n1, an1, t1), (n2, an2, t2)], core)
+        } else {
+            core
+        };
+        self.scope.truncate(base);
+        if live_differs { self.consume(goal, out) } else { out }
+    }
+
+    // K5. Propositional equality by a predicate, and a function whose body is a group of
+    // definitions over its parameters, with a type that mentions one of them:
+    //   eq = (a : type) => (x : a) => (y : a) => (p : a -> type) -> p x -> p y
+    //   refl : ((a : type) -> (x : a) -> eq a x x) = (a : type) => (x : a) => (p : a -> type) => (h : p x) => h
+    //   f : ((a : type) -> (x : a) -> eq a x x) = (a : type) => (x : a) => (y = x; u = 1; refl a y)
+    //   f int 3 ((z : int) => A) v
+    fn g_eq_refl(&mut self, goal: &T, budget: usize) -> E {
+        self.feat("dep-equality-by-predicate");
+        let base = self.scope.len();
+        let pick = |g: &mut Self, want: &str| if !g.in_scope(want) { want.to_owned() } else { g.fresh_name() };
+        let eq = pick(self, "eq");
+        self.scope.push(Bind::opaque(&eq));
+        let refl = pick(self, "refl");
+        self.scope.push(Bind::opaque(&refl));
+        let f = self.fresh_name();
+        self.scope.push(Bind::opaque(&f));
+        let defs_base = self.scope.len();
+        let v = self.expr(goal, budget / 2);
+        let ty = |v: &str| var(v);
+        let pi = |v: &str, d: E, c: E| E::Pi { var: Some(v.to_owned()), implicit: false, dom: Box::new(d), cod: Box::new(c) };
+        // eq
+        // the binders of the three definitions are siblings: the same names serve in each
+        let a = self.fresh_tyvar();
+        let ns = self.fresh_names(4);
+        let (x, y, p, h) = (ns[0].clone(), ns[1].clone(), ns[2].clone(), ns[3].clone());
+        let eq_def = lam(&a, Some(E::TyType), lam(&x, Some(ty(&a)), lam(&y, Some(ty(&a)), pi(&p, arrow(ty(&a), E::TyType), arrow(app(var(&p), var(&x)), app(var(&p), var(&y)))))));
+        let eq_ann = pi(&a, E::TyType, arrow(var(&a), arrow(var(&a), E::TyType)));
+        let eq_ann = self.ann_or_hole(eq_ann);
+        // refl and f have the same type
+        let refl_ty = |a: &str, x: &str| pi(a, E::TyType, pi(x, var(a), app(app(app(var(&eq), var(a)), var(x)), var(x))));
+        let (a2, x2, p2) = (a.clone(), x.clone(), p.clone());
+        let refl_def = lam(&a2, Some(E::TyType), lam(&x2, Some(ty(&a2)), lam(&p2, Some(arrow(ty(&a2), E::TyType)), lam(&h, Some(app(var(&p2), var(&x2))), var(&h)))));
+        // f: a group over the parameters
+        let (a3, x3) = (a.clone(), x.clone());
+        self.scope.push(Bind::opaque(&a3));
+        self.scope.push(Bind::opaque(&x3));
+        let n = 2 + self.rng.below(3);
+        let k = self.rng.below(n);
+        if k > 0 && k + 1 < n { self.feat("dep-group-type-mentions-middle-definition"); }
+        if k + 1 == n { self.feat("dep-group-type-mentions-last-definition"); }
+        self.feat("dep-alias-group-under-binder");
+        let mut defs = vec![];
+        let mut yname = String::new();
+        for i in 0..n {
+            let kind = if i == k { 0 } else { 1 + self.rng.below(3) };
+            let nm = if kind == 2 || kind == 3 { self.fresh_tyvar() } else { self.fresh_name() };
+            self.scope.push(Bind::opaque(&nm));
+            let (ann, rhs) = match kind {
+                0 => { yname = nm.clone(); (ty(&a3), var(&x3)) }
+                1 => (E::TyInt, lit(self.rng.range(0, 9))),
+                2 => { self.feat("dep-alias-of-type-parameter"); (E::TyType, ty(&a3)) }
+                _ => (E::TyType, ty_plain(&self.gen_type(1))),
+            };
+            let ann = self.ann_or_hole(ann);
+            defs.push((nm, ann, rhs));
+        }
+        let f_def = lam(&a3, Some(E::TyType), lam(&x3, Some(ty(&a3)), E::Let(defs, Box::new(app(app(var(&refl), var(&a3)), var(&yname))))));
+        self.scope.truncate(defs_base);
+        // use: f I w ((z : I) => A) v
+        let (ity, w) = if self.rng.chance(2, 3) { (E::TyInt, lit(self.rng.range(0, 9))) } else { (E::TyBool, if self.rng.chance(1, 2) { E::True } else { E::False }) };
+        let z = self.fresh_name();
+        let a_e = self.ty_e(goal);
+        let zann = if self.cfg.allow_holes && self.rng.chance(1, 3) { self.feat("hole"); None } else { Some(ity.clone()) };
+        let used = app(app(app(app(var(&f), ity), w), lam(&z, zann, a_e)), v);
+        let (t1, t2) = (refl_ty(&a, &x), refl_ty(&a, &x));
+        self.scope.truncate(base);
+        mk_let(vec![(eq, eq_ann, eq_def), (refl, Some(t1), refl_def), (f, Some(t2), f_def)], used)
+    }
+
+    // K6. A parameter without annotation whose type is settled late, below a local function that
+    // closes over it under a binder of its own:
+    //   ((a : type) => (x : _) => (g = (b : type) => x; y : a = x; g bool)) A v
+    // Near miss: the result is required to have the type that `g` is applied to.
+    fn g_hole_late(&mut self, goal: &T, budget: usize, near: bool) -> E {
+        self.feat("dep-hole-settled-below-local-function");
+        self.feat("hole");
+        let other = self.other_ground(goal);
+        if near { self.reject = Some(("result-of-a-function-closing-over-a-late-hole", "nm_".to_owned())); }
+        let v = self.expr(if near { &other } else { goal }, budget / 2);
+        let base = self.scope.len();
+        let a = self.fresh_tyvar();
+        self.scope.push(Bind::opaque(&a));
+        let x = self.fresh_name();
+        self.scope.push(Bind::opaque(&x));
+        let g = self.fresh_name();
+        self.scope.push(Bind::opaque(&g));
+        let y = self.fresh_name();
+        self.scope.push(Bind::opaque(&y));
+        let b = self.fresh_tyvar();
+        let applied_to = if near { goal.clone() } else { self.gen_type(1) };
+        let body = E::Let(
+            vec![(g.clone(), None, lam(&b, Some(E::TyType), var(&x))), (y, Some(var(&a)), var(&x))],
+            Box::new(app(var(&g), ty_plain(&applied_to))),
+        );
+        let xann = if self.rng.chance(1, 2) { Some(E::Hole) } else { None };
+        let f = lam(&a, Some(E::TyType), E::Lam { var: x, implicit: false, ann: xann.map(Box::new), body: Box::new(body) });
+        self.scope.truncate(base);
+        let a_e = ty_plain(if near { &other } else { goal });
+        let core = app(app(f, a_e), v);
+        if near {
+            let used = self.consume(goal, var("nm_"));
+            app(lam("nm_", Some(ty_plain(goal)), used), core)
+        } else {
+            core
+        }
+    }
+
+    // K8. Inside a polymorphic function: a local alias of the type parameter, a definition
+    // annotated with the alias, and a body that may mix values of both spellings:
+    //   (a : type) => (x : a) => (b : type = a; y : b = x; if c then x else y)
+    fn g_tyvar_alias(&mut self, goal: &T, a: &str, budget: usize) -> Option<E> {
+        let ta = T::TVar(a.to_owned());
+        let base = self.scope.len();
+        let b = self.fresh_tyvar();
+        let y = self.fresh_name();
+        let univ = if self.rng.chance(1, 4) { Some(self.fresh_tyvar()) } else { None };
+        self.scope.push(Bind::opaque(&y));
+        let rhs = self.inhabit(&ta, 2);
+        self.scope.truncate(base);
+        let rhs = rhs?;
+        self.feat("dep-alias-of-type-parameter");
+        self.feat("dep-definition-annotated-with-alias-of-parameter");
+        let mut defs = vec![];
+        if let Some(u) = &univ {
+            self.feat("dep-universe-alias");
+            let ua = self.ann_or_hole(E::TyType);
+            defs.push((u.clone(), ua, E::TyType));
+            self.scope.push(Bind { alias: Some(T::Type), ..Bind::plain(u, T::Type) });
+        }
+        let bann = self.ann_or_hole(match &univ { Some(u) => var(u), None => E::TyType });
+        defs.push((b.clone(), bann, var(a)));
+        defs.push((y.clone(), Some(var(&b)), rhs));
+        self.scope.push(Bind { alias: Some(ta.clone()), ..Bind::plain(&b, T::Type) });
+        self.scope.push(Bind::plain(&y, ta.clone()));
+        self.let_depth += 1;
+        self.no_let = true;
+        let body = if *goal == ta && self.rng.chance(1, 2) {
+            let vs = self.vars_of(&ta);
+            let other = var(self.rng.pick::<String>(&vs[..]));
+            let c = self.expr(&T::Bool, 3);
+            if self.rng.chance(1, 2) { ite(c, other, var(&y)) } else { ite(c, var(&y), other) }
+        } else {
+            self.expr(goal, budget / 2)
+        };
+        self.no_let = false;
+        self.let_depth -= 1;
+        self.scope.truncate(base);
+        Some(mk_let(defs, body))
+    }
 }
 
 // Programs whose reference evaluation visits more nodes than this are generated again.
 pub const MAX_REFERENCE_COST: usize = 6_000;
 
 pub fn default_cfg() -> GenCfg {
-    GenCfg { size: 40, allow_holes: false, allow_forward_refs: false, allow_nested_groups: true, allow_div: true, big_literals: true }
+    GenCfg { size: 40, allow_holes: false, allow_forward_refs: false, allow_nested_groups: true, allow_div: true, big_literals: true, dependent: 0 }
 }
 
 // One program, reproducible from the state of `rng`.
@@ -1678,8 +2702,17 @@ pub fn gen_program(rng: &mut Rng, cfg: &GenCfg) -> Prog {
             no_let: false,
             used_tyvars: BTreeSet::new(),
             obfuscate: true,
+            dep: false,
+            in_ann: 0,
+            want_reject: false,
+            reject: None,
+            dep_made: 0,
         };
         g.obfuscate = g.rng.chance(2, 3);
+        if cfg.dependent > 0 {
+            g.dep = g.rng.below(100) < cfg.dependent as usize;
+            g.want_reject = g.dep && g.rng.chance(1, 5);
+        }
         let goal = match g.rng.below(20) {
             0..=10 => T::Int,
             11..=16 => T::Bool,
@@ -1687,16 +2720,31 @@ pub fn gen_program(rng: &mut Rng, cfg: &GenCfg) -> Prog {
             18 => g.func_type(),
             _ => if g.rng.chance(1, 2) { g.poly_type() } else { g.func_type() },
         };
+        // dependent mode: ground programs mostly (the constructions are made at ground types and
+        // at the type parameters of polymorphic functions)
+        let goal = if g.dep && !goal.is_ground_base() && g.rng.chance(2, 3) { g.ground_base() } else { goal };
         let size = cfg.size.max(2);
-        let e = if g.rng.chance(5, 6) && size >= 6 { g.gen_group(&goal, size) } else { g.expr(&goal, size) };
+        let e = if g.dep && goal.is_ground_base() && (size < 6 || g.rng.chance(1, 5)) {
+            g.dep_gadget(&goal, size.max(6), true).unwrap()
+        } else if g.rng.chance(5, 6) && size >= 6 {
+            g.gen_group(&goal, size)
+        } else {
+            g.expr(&goal, size)
+        };
         let (expected, cost) = reference_eval_cost(&e, 400_000);
         let ty_src = render_plain(&ty_plain(&goal));
         let mut features: Vec<&'static str> = g.feats.iter().copied().collect();
         if has_hole(&e) && !features.contains(&"hole") { features.push("hole"); }
-        let p = Prog { fully_annotated: !has_hole(&e), e, ty_src, expected, features };
+        // the near miss counts only if it made it into the program
+        let mut names = BTreeSet::new();
+        all_names(&e, &mut names);
+        let expect_reject = g.reject.as_ref().filter(|(_, marker)| names.contains(marker)).map(|(k, _)| *k);
+        if expect_reject.is_none() { features.retain(|f| *f != "dep-near-miss"); }
+        if g.dep && features.iter().any(|f| f.starts_with("dep-")) { features.push("dependent-mode"); }
+        let p = Prog { fully_annotated: !has_hole(&e), e, ty_src, expected, features, expect_reject };
         // the generator is meant to produce terminating, non-stuck programs: retry otherwise
         // and to stay cheap: evaluation is meant to take a few thousand steps at most
-        if !matches!(p.expected, Expected::Diverges | Expected::Unknown) && cost <= MAX_REFERENCE_COST { return p; }
+        if cost <= MAX_REFERENCE_COST && (p.expect_reject.is_some() && !matches!(p.expected, Expected::Diverges) || !matches!(p.expected, Expected::Diverges | Expected::Unknown)) { return p; }
         last = Some(p);
     }
     last.unwrap()
@@ -1771,7 +2819,13 @@ fn closed_true(rng: &mut Rng) -> E {
 
 // Each kind of rewrite applied once, at a random applicable site (kinds without a site are
 // left out).
-pub fn rewrites(p: &E, rng: &mut Rng) -> Vec<(&'static str, E)> {
+pub fn rewrites(p: &E, rng: &mut Rng) -> Vec<(&'static str, E)> { rewrites_opt(p, rng, false) }
+
+// `keep_types`: leave type-level positions (annotations, function types) and open subexpressions
+// (which may become an index by a dependent application) alone. Needed for programs with a
+// RECURSIVE type family: `B n` and `B (u = 1; n)` for a bound variable n are convertible, but
+// gram's conversion check unfolds B on both sides for ever (see NOTES.md, finding F1).
+pub fn rewrites_opt(p: &E, rng: &mut Rng, keep_types: bool) -> Vec<(&'static str, E)> {
     let all = sites(p);
     let prot = protected_paths(p, &all);
     let mut out: Vec<(&'static str, E)> = vec![];
@@ -1819,7 +2873,7 @@ pub fn rewrites(p: &E, rng: &mut Rng) -> Vec<(&'static str, E)> {
 
     // unused-def: a new definition that nothing refers to
     {
-        let cands: Vec<&Site> = all.iter().filter(|s| s.role != Role::LetBody && !prot.contains(&s.path)).collect();
+        let cands: Vec<&Site> = all.iter().filter(|s| s.role != Role::LetBody && !prot.contains(&s.path) && !(keep_types && (s.in_type || !is_closed(at(p, &s.path))))).collect();
         if !cands.is_empty() {
             let s = cands[rng.below(cands.len())];
             let u = fresh_for(p, &[], rng);
@@ -1881,7 +2935,7 @@ pub fn rewrites(p: &E, rng: &mut Rng) -> Vec<(&'static str, E)> {
     {
         let cands: Vec<(&Site, bool)> = all
             .iter()
-            .filter(|s| !s.in_type && !prot.contains(&s.path))
+            .filter(|s| !s.in_type && !prot.contains(&s.path) && !(keep_types && !is_closed(at(p, &s.path))))
             .filter_map(|s| evident_ground_type(at(p, &s.path), s.role).map(|t| (s, t)))
             .collect();
         if !cands.is_empty() {
@@ -1895,7 +2949,7 @@ pub fn rewrites(p: &E, rng: &mut Rng) -> Vec<(&'static str, E)> {
 
     // if-true: if <true> then e else e'
     {
-        let cands: Vec<&Site> = all.iter().filter(|s| !prot.contains(&s.path) && s.role != Role::LetBody || s.role == Role::LetBody && !matches!(at(p, &s.path), E::Let(..))).filter(|s| !prot.contains(&s.path)).collect();
+        let cands: Vec<&Site> = all.iter().filter(|s| !prot.contains(&s.path) && s.role != Role::LetBody || s.role == Role::LetBody && !matches!(at(p, &s.path), E::Let(..))).filter(|s| !prot.contains(&s.path) && !(keep_types && (s.in_type || !is_closed(at(p, &s.path))))).collect();
         if !cands.is_empty() {
             let s = cands[rng.below(cands.len())];
             let node = at(p, &s.path).clone();
@@ -1934,6 +2988,118 @@ pub fn rewrites(p: &E, rng: &mut Rng) -> Vec<(&'static str, E)> {
             let mut q = p.clone();
             if let E::Let(defs, _) = at_mut(&mut q, &path) { defs.swap(i, i + 1); }
             out.push(("reorder-fns", q));
+        }
+    }
+    out
+}
+
+// Rewrites aimed at definition groups, wherever they are nested: up to `max` of
+//   unused-def-in-group   a new unused definition at ANY position of ANY group of the program
+//   unused-call-in-group  `u = f 0 ..`, an unused call of a function of the group, at its end
+//   name-subexpr-in-group a subexpression in strict position of a non-value definition (or of the
+//                         body) gets a name: a new definition of the same group just before
+// The last two are kept only when the reference evaluator gives the rewritten program the
+// value of the original (a call may diverge, divide by zero, or come too early).
+pub fn rewrites_groups(p: &E, rng: &mut Rng, max: usize, keep_types: bool) -> Vec<(&'static str, E)> {
+    let all = sites(p);
+    let groups: Vec<&Site> = all.iter().filter(|s| matches!(at(p, &s.path), E::Let(..)) && !(keep_types && s.in_type)).collect();
+    let mut out: Vec<(&'static str, E)> = vec![];
+    if groups.is_empty() { return out; }
+    let expected = std::cell::OnceCell::new();
+    let same_value = |q: &E| { let want = expected.get_or_init(|| reference_eval(p, 400_000)); reference_eval(q, 400_000) == *want };
+    let ground = |a: &E| matches!(strip(a), E::TyInt | E::TyBool);
+    for _ in 0..max * 3 {
+        if out.len() >= max { break; }
+        let s = groups[rng.below(groups.len())];
+        let E::Let(defs, _) = at(p, &s.path) else { continue };
+        match rng.below(4) {
+            0 | 1 => {
+                let u = fresh_for(p, &[], rng);
+                let z = fresh_for(p, &[u.clone()], rng);
+                let (ann, rhs) = match rng.below(5) {
+                    0 => (E::TyInt, lit(rng.range(0, 99))),
+                    1 => (E::TyInt, bin(rng.below(3) as u8, lit(rng.range(0, 9)), lit(rng.range(0, 9)))),
+                    2 => (E::TyBool, bin(4 + rng.below(5) as u8, lit(rng.range(0, 9)), lit(rng.range(0, 9)))),
+                    3 => (arrow(E::TyInt, E::TyInt), lam(&z, Some(E::TyInt), bin(0, var(&z), lit(1)))),
+                    _ => (E::TyType, arrow(E::TyInt, E::TyBool)),
+                };
+                let k = rng.below(defs.len() + 1);
+                let mut q = p.clone();
+                if let E::Let(ds, _) = at_mut(&mut q, &s.path) { ds.insert(k, (u, Some(ann), rhs)); }
+                out.push(("unused-def-in-group", q));
+            }
+            2 => {
+                // a function of the group whose annotation gives ground parameter and result types
+                let fs: Vec<(&String, Vec<bool>, bool)> = defs.iter().filter_map(|(n, a, d)| {
+                    if n == "_" { return None; }
+                    let (Some(a), E::Lam { .. }) = (a.as_ref(), strip(d)) else { return None };
+                    let mut ps = vec![];
+                    let mut cur = strip(a);
+                    while let E::Pi { var: None, dom, cod, .. } = cur {
+                        if !ground(dom) { return None; }
+                        ps.push(matches!(strip(dom), E::TyInt));
+                        cur = strip(cod);
+                    }
+                    if ps.is_empty() || !ground(cur) { return None; }
+                    Some((n, ps, matches!(cur, E::TyInt)))
+                }).collect();
+                if fs.is_empty() { continue; }
+                let (f, ps, res_int) = fs[rng.below(fs.len())].clone();
+                let mut call = var(f);
+                for is_int in ps { call = app(call, if is_int { lit(rng.range(0, 4)) } else if rng.chance(1, 2) { E::True } else { E::False }); }
+                let u = fresh_for(p, &[], rng);
+                let ann = if rng.chance(2, 3) { Some(if res_int { E::TyInt } else { E::TyBool }) } else { None };
+                let mut q = p.clone();
+                if let E::Let(ds, _) = at_mut(&mut q, &s.path) { ds.push((u, ann, call)); }
+                if same_value(&q) { out.push(("unused-call-in-group", q)); }
+            }
+            _ => {
+                // strict positions below this group
+                fn strict(e: &E, path: &mut Path, out: &mut Vec<Path>) {
+                    if matches!(e, E::App(..) | E::Bin(..) | E::Neg(_) | E::If(..)) && !path.is_empty() { out.push(path.clone()); }
+                    let rs = roles(e);
+                    for (i, k) in kids(e).into_iter().enumerate() {
+                        if matches!(rs[i], Role::AppFun | Role::AppArg | Role::BinL(_) | Role::BinR(_) | Role::NegArg | Role::IfCond | Role::ParenIn) {
+                            path.push(i);
+                            strict(k, path, out);
+                            path.pop();
+                        }
+                    }
+                }
+                // (definition index or None for the body, path of the node relative to the group)
+                let mut cands: Vec<(Option<usize>, Path)> = vec![];
+                let rs = roles(at(p, &s.path));
+                let mut di = 0;
+                for (i, k) in kids(at(p, &s.path)).into_iter().enumerate() {
+                    let which = match rs[i] {
+                        Role::DefRhs => { di += 1; if is_syntactic_value(k) { continue; } Some(di - 1) }
+                        Role::LetBody => { if matches!(strip(k), E::Let(..)) { continue; } None }
+                        _ => continue,
+                    };
+                    let mut found = vec![];
+                    strict(k, &mut vec![i], &mut found);
+                    // the whole right-hand side / body is not a candidate: only proper parts
+                    for f in found { if f.len() > 1 { cands.push((which, f)); } }
+                }
+                if cands.is_empty() { continue; }
+                let (which, rel) = cands[rng.below(cands.len())].clone();
+                let mut full = s.path.clone();
+                full.extend(rel);
+                let node = at(p, &full).clone();
+                if size(&node) > 40 || (keep_types && !is_closed(&node)) { continue; }
+                // only at an evident ground type: gram cannot always infer the type of an
+                // unannotated definition (when it mentions later members of the group)
+                let Some(role) = all.iter().find(|x| x.path == full).map(|x| x.role) else { continue };
+                let Some(is_int) = evident_ground_type(&node, role) else { continue };
+                let ann = if rng.chance(1, 2) { Some(if is_int { E::TyInt } else { E::TyBool }) } else { None };
+                let w = fresh_for(p, &[], rng);
+                let mut q = replace_at(p, &full, var(&w));
+                if let E::Let(ds, _) = at_mut(&mut q, &s.path) {
+                    let k = which.unwrap_or(ds.len());
+                    ds.insert(k, (w, ann, node));
+                }
+                if same_value(&q) { out.push(("name-subexpr-in-group", q)); }
+            }
         }
     }
     out
@@ -2036,3 +3202,192 @@ pub fn perturb(p: &E, rng: &mut Rng) -> Option<(&'static str, E)> {
     }
     None
 }
+
+// ---------------------------------------------------------------------------------------------
+// 8. Type faults at positions where the expected type is known (for the diagnostic-range oracle)
+// ---------------------------------------------------------------------------------------------
+
+// A well-typed program with ONE subexpression, at a position whose expected type (int or bool)
+// is evident, replaced by a freshly generated closed expression of another type.
+pub struct TypedPerturb {
+    pub e: E,
+    pub path: Path,             // where the new subexpression is
+    pub position: &'static str, // argument | operand | negation-operand | condition | definition
+    pub expected_int: bool,     // the type the position requires
+    pub got: &'static str,      // int | bool | function | type
+    pub form: &'static str,     // syntactic form of the new subexpression
+    // the new subexpression was made as a chain (product, sum) whose FIRST operand is a
+    // parenthesised chain: `(1 + 2) - 3` (gram reports such ranges from inside the parenthesis)
+    pub paren_left_chain: bool,
+}
+
+// For every argument of an application whose function has a known ground parameter type there:
+// path of the argument -> is the parameter an int (else a bool).
+fn arg_expectations(p: &E) -> HashMap<Path, bool> {
+    // the parameter types a name is known to take, from its annotation or its lambdas
+    fn params_of_type(t: &E) -> Vec<Option<bool>> {
+        let mut out = vec![];
+        let mut cur = strip(t);
+        while let E::Pi { dom, cod, .. } = cur {
+            out.push(match strip(dom) { E::TyInt => Some(true), E::TyBool => Some(false), _ => None });
+            cur = strip(cod);
+        }
+        out
+    }
+    fn params_of_lambda(e: &E) -> Vec<Option<bool>> {
+        let mut out = vec![];
+        let mut cur = strip(e);
+        while let E::Lam { ann, body, .. } = cur {
+            out.push(match ann.as_deref().map(strip) { Some(E::TyInt) => Some(true), Some(E::TyBool) => Some(false), _ => None });
+            cur = strip(body);
+        }
+        out
+    }
+    fn go(e: &E, path: &mut Path, env: &mut Vec<(String, Vec<Option<bool>>)>, out: &mut HashMap<Path, bool>) {
+        // an application spine, seen from its outermost node
+        if let E::App(..) = e {
+            let mut args: Vec<Path> = vec![];
+            let mut cur = e;
+            let mut cur_path = path.clone();
+            while let E::App(f, _) = cur {
+                let mut ap = cur_path.clone();
+                ap.push(1);
+                args.push(ap);
+                cur_path.push(0);
+                cur = f;
+            }
+            args.reverse();
+            let params = match strip(cur) {
+                E::Var(x) => env.iter().rev().find(|b| &b.0 == x).map(|b| b.1.clone()).unwrap_or_default(),
+                l @ E::Lam { .. } => params_of_lambda(l),
+                _ => vec![],
+            };
+            // a parenthesised head hides nothing here: `strip` only removes explicit parentheses
+            for (k, ap) in args.iter().enumerate() {
+                if let Some(Some(is_int)) = params.get(k) { out.insert(ap.clone(), *is_int); }
+            }
+        }
+        let n0 = env.len();
+        match e {
+            E::Let(defs, _) => for (x, a, d) in defs {
+                let ps = match a { Some(a) if !matches!(strip(a), E::Hole) => params_of_type(a), _ => params_of_lambda(d) };
+                env.push((x.clone(), ps));
+            },
+            _ => {}
+        }
+        for (i, k) in kids(e).into_iter().enumerate() {
+            let n1 = env.len();
+            match e {
+                E::Lam { var, ann, .. } if i == usize::from(ann.is_some()) => env.push((var.clone(), ann.as_deref().map(params_of_type).unwrap_or_default())),
+                E::Pi { var: Some(v), dom, .. } if i == 1 => env.push((v.clone(), params_of_type(dom))),
+                _ => {}
+            }
+            path.push(i);
+            go(k, path, env, out);
+            path.pop();
+            env.truncate(n1);
+        }
+        env.truncate(n0);
+    }
+    let mut out = HashMap::new();
+    go(p, &mut vec![], &mut vec![], &mut out);
+    out
+}
+
+// A closed expression that is NOT of the expected type: (expression, its type, its form).
+fn fresh_of_other_type(expected_int: bool, p: &E, rng: &mut Rng) -> (E, &'static str, &'static str, bool) {
+    let names: Vec<String> = { let a = fresh_for(p, &[], rng); let b = fresh_for(p, &[a.clone()], rng); vec![a, b] };
+    let (x, z) = (&names[0], &names[1]);
+    let small = |rng: &mut Rng| lit(rng.range(0, 9));
+    fn int_expr(rng: &mut Rng, x: &str, z: &str, depth: usize) -> (E, &'static str, bool) {
+        let sub = |rng: &mut Rng| if depth == 0 { lit(rng.range(0, 9)) } else { int_expr(rng, x, z, depth - 1).0 };
+        match rng.below(14) {
+            0 => (lit(rng.range(0, 99)), "literal", false),
+            1 | 2 | 3 => (E::Neg(Box::new(sub(rng))), "negation", false),
+            4 => (E::Neg(Box::new(paren(bin(rng.below(3) as u8, lit(rng.range(0, 9)), lit(rng.range(0, 9)))))), "negation", false),
+            5 => (bin(rng.below(2) as u8, sub(rng), sub(rng)), "sum", false),
+            6 => (bin(2, sub(rng), lit(rng.range(1, 9))), "product", false),
+            7 => (app(lam(z, Some(E::TyInt), bin(0, var(z), lit(1))), sub(rng)), "application", false),
+            8 => (ite(if rng.chance(1, 2) { E::True } else { bin(4, lit(1), lit(2)) }, sub(rng), lit(rng.range(0, 9))), "conditional", false),
+            9 => (paren(E::Let(vec![(x.to_owned(), Some(E::TyInt), lit(rng.range(0, 9)))], Box::new(bin(0, var(x), lit(1))))), "group", false),
+            10 => (paren(lit(rng.range(0, 9))), "parenthesised-literal", false),
+            11 => (paren(bin(rng.below(3) as u8, lit(rng.range(0, 9)), lit(rng.range(1, 9)))), "parenthesised-sum", false),
+            12 => {
+                // (a + b) - c, (a * b) * c: the first operand is a parenthesised chain of the same class
+                let (o1, o2) = if rng.chance(1, 2) { (rng.below(2) as u8, rng.below(2) as u8) } else { (2, 2) };
+                (bin(o2, paren(bin(o1, lit(rng.range(0, 9)), lit(rng.range(1, 9)))), lit(rng.range(1, 9))), "chain-with-parenthesised-first-operand", true)
+            }
+            _ => (bin(rng.below(2) as u8, lit(rng.range(0, 9)), paren(bin(rng.below(2) as u8, lit(rng.range(0, 9)), lit(rng.range(0, 9))))), "chain-with-parenthesised-last-operand", false),
+        }
+    }
+    let r = rng.below(10);
+    if r < 6 {
+        if expected_int {
+            // a boolean
+            let (e, form) = match rng.below(8) {
+                0 => (if rng.chance(1, 2) { E::True } else { E::False }, "literal"),
+                1 | 2 => (bin(4 + rng.below(5) as u8, small(rng), small(rng)), "comparison"),
+                3 => (ite(bin(5, lit(1), lit(2)), E::True, bin(6, small(rng), small(rng))), "conditional"),
+                4 => (app(lam(z, Some(E::TyInt), bin(7, var(z), lit(0))), small(rng)), "application"),
+                5 => (paren(E::Let(vec![(x.clone(), Some(E::TyInt), small(rng))], Box::new(bin(4, var(x), lit(5))))), "group"),
+                6 => (paren(E::True), "parenthesised-literal"),
+                _ => (paren(bin(4 + rng.below(5) as u8, small(rng), small(rng))), "parenthesised-comparison"),
+            };
+            (e, "bool", form, false)
+        } else {
+            let (e, form, plc) = int_expr(rng, x, z, 1);
+            (e, "int", form, plc)
+        }
+    } else if r < 8 {
+        let (e, form) = match rng.below(3) {
+            0 => (lam(z, Some(E::TyInt), var(z)), "lambda"),
+            1 => (paren(lam(z, Some(E::TyBool), var(z))), "parenthesised-lambda"),
+            _ => (lam(z, Some(E::TyInt), lam(x, Some(E::TyInt), bin(0, var(z), var(x)))), "lambda"),
+        };
+        (e, "function", form, false)
+    } else {
+        let (e, form) = match rng.below(3) {
+            0 => (E::TyInt, "type-constant"),
+            1 => (arrow(E::TyInt, E::TyBool), "function-type"),
+            _ => (paren(E::TyBool), "parenthesised-type-constant"),
+        };
+        (e, "type", form, false)
+    }
+}
+
+pub fn perturb_typed(p: &E, rng: &mut Rng) -> Option<TypedPerturb> {
+    let all = sites(p);
+    let args = arg_expectations(p);
+    // (site, position, expected is int)
+    let mut cands: Vec<(&Site, &'static str, bool)> = vec![];
+    for s in &all {
+        if s.in_type || s.path.is_empty() { continue; }
+        match s.role {
+            Role::BinL(_) | Role::BinR(_) => cands.push((s, "operand", true)),
+            Role::NegArg => cands.push((s, "negation-operand", true)),
+            Role::IfCond => cands.push((s, "condition", false)),
+            Role::AppArg => if let Some(is_int) = args.get(&s.path) { cands.push((s, "argument", *is_int)); },
+            Role::DefRhs => {
+                // the annotation is the child just before
+                let (parent, idx) = (at(p, &s.path[..s.path.len() - 1]), *s.path.last().unwrap());
+                if idx > 0 && roles(parent)[idx - 1] == Role::DefAnn {
+                    match strip(kids(parent)[idx - 1]) { E::TyInt => cands.push((s, "definition", true)), E::TyBool => cands.push((s, "definition", false)), _ => {} }
+                }
+            }
+            _ => {}
+        }
+    }
+    if cands.is_empty() { return None; }
+    // the positions other than operands are rarer: pick the kind of position first
+    let kinds: Vec<&'static str> = { let mut k: Vec<&'static str> = cands.iter().map(|c| c.1).collect(); k.sort(); k.dedup(); k };
+    let kind = *rng.pick(&kinds);
+    let of_kind: Vec<&(&Site, &'static str, bool)> = cands.iter().filter(|c| c.1 == kind).collect();
+    let (s, position, expected_int) = **rng.pick(&of_kind);
+    let (new, got, form, paren_left_chain) = fresh_of_other_type(expected_int, p, rng);
+    Some(TypedPerturb { e: replace_at(p, &s.path, new), path: s.path.clone(), position, expected_int, got, form, paren_left_chain })
+}
+
+// Which of the two spans gram's convention points at for a node of this shape: a chain node
+// (application, product/quotient, sum/difference) is reported from its first to its last operand,
+// without the parentheses around it; anything else with all the parentheses directly around it.
+pub fn reported_span_is_core(node: &E) -> bool { chain_class(strip(node)) != 0 }
